@@ -482,6 +482,14 @@ def r5_drain_before_allocator(ctx):
             full = bool(dr) and any(x[0] == 'agg' and 'RangeFull' in x[1] for x in walk(fd.expr_operand(dr[0].args[1], dr[0].b, 'T')))
             ok = full
             if not ok:
+                # equivalent: Vec::clear / truncate(0) drops every element in place, unconditionally
+                for s2 in fd.calls():
+                    m = s2.name
+                    if m in ('std::vec::Vec::clear', 'std::vec::Vec::truncate') and s2.args and receiver_field(fd.expr_operand(s2.args[0], s2.b, 'T')) == names[buck_i] \
+                            and all(fd.dominates(s2.b, r) for r in fd.return_blocks()):
+                        if m.endswith('clear') or peel(fd.expr_operand(s2.args[1], s2.b, 'T')) == ('int', 0):
+                            ok = True
+            if not ok:
                 # equivalent: the whole vector is moved out (mem::take / mem::replace with an empty Vec) and dropped inside drop()
                 for s2 in fd.calls():
                     if s2.name in ('std::mem::take', 'std::mem::replace') and s2.args and receiver_field(fd.expr_operand(s2.args[0], s2.b, 'T')) == names[buck_i]:
